@@ -193,3 +193,52 @@ def tabeam_fs_api(nrho, drho, nr, dr, eam_potentials, potentials, fp):
         for b in sorted([e.species for e in eam_potentials]):
             fp.write("dens %s %s %d 0.0 %f\n" % (a.species, b, nr, (nr - 1) * dr))
             _tab4(fp, a.electronDensityFunction[b], nr, dr)
+
+
+# ---- C19 -------------------------------------------------------------------
+def WS():
+    """optional whitespace / line break whose exact placement the property does not fix"""
+    raise NotImplementedError("symbolic only")
+
+
+def gulp_table(potentials, cutoff, nr, fp):
+    """per potential: 'spline cubic', a header with the species and the cutoff, then exactly nr rows
+    'energy separation' at r_i = i*cutoff/(nr-1)"""
+    for pot in potentials:
+        fp.write("spline cubic\n")
+        fp.write("{} {} {}\n".format(pot.speciesA, pot.speciesB, cutoff))
+        for i in range(nr):
+            r = i * cutoff / (nr - 1)
+            fp.write("{:.10f} {:.10f}\n".format(pot.potentialFunction(r), r))
+
+
+def adp(potentials, eam_potentials, dipole_potentials, quadrupole_potentials, cutoff, nr, cutoff_rho, nrho, fp):
+    """the setfl file of the same model, then the dipole and then the quadrupole functions, unscaled,
+    for every element pair (i, j<=i) in header order, zero where undeclared"""
+    dr = cutoff / (nr - 1)
+    setfl(potentials, eam_potentials, cutoff, nr, cutoff_rho, nrho, fp)
+    _setfl_pairs(eam_potentials, dipole_potentials, nr, dr, False, fp)
+    _setfl_pairs(eam_potentials, quadrupole_potentials, nr, dr, False, fp)
+
+
+def funcfl(nrho, drho, nr, dr, eam_potentials, potentials, fp):
+    """funcfl: title; atomic number, mass, lattice constant, lattice type; nrho drho nr dr cutoff with
+    cutoff = dr*(nr-1); embedding values F(i*drho); effective charges Z(r) with Z^2 * 27.2 * 0.529 / r = phi(r);
+    densities rho(i*dr)"""
+    e = eam_potentials[0]
+    pp = potentials[0]
+    fp.write("\n")
+    fp.write("%d %f %f %s\n" % (e.atomicNumber, e.mass, e.latticeConstant, e.latticeType))
+    fp.write("%d %f %d %f %f\n" % (nrho, drho, nr, dr, dr * (nr - 1)))
+    for i in range(nrho):
+        fp.write(" % 20.16e" % e.embeddingFunction(i * drho))
+        fp.write(WS())
+    fp.write(WS())
+    for i in range(nr):
+        r = i * dr
+        fp.write(" % 20.16e" % (pp.energy(r) * r / 27.2 / 0.529) ** 0.5)
+        fp.write(WS())
+    fp.write(WS())
+    for i in range(nr):
+        fp.write(" % 20.16e" % e.electronDensityFunction(i * dr))
+        fp.write(WS())
